@@ -172,8 +172,8 @@ namespace stdex
         constexpr const T& operator[](size_type idx) const { return the_data[idx]; }
         constexpr T& operator[](size_type idx) { return the_data[idx]; }
 #endif
-        constexpr void push_back(const T& v) { the_data[current_size++] = v; }
-        constexpr void emplace_back(T&& v) { the_data[current_size++] = std::move(v); }
+        constexpr void push_back(const T& v) { check_capacity(); the_data[current_size++] = v; }
+        constexpr void emplace_back(T&& v) { check_capacity(); the_data[current_size++] = std::move(v); }
 #ifdef CTPG_VERIF
         constexpr const T& front() const { CTPG_VERIF_CVECTOR_CHECK(current_size > 0, "front const", 0, current_size, N); return the_data[0]; }
         constexpr T& front() { CTPG_VERIF_CVECTOR_CHECK(current_size > 0, "front", 0, current_size, N); return the_data[0]; }
@@ -214,6 +214,12 @@ namespace stdex
         }
 
     private:
+        constexpr void check_capacity() const
+        {
+            if (current_size >= N)
+                throw std::runtime_error("cvector capacity exceeded");
+        }
+
         T the_data[N];
         size_type current_size;
     };
